@@ -262,3 +262,61 @@ theorem take_sorted {l : List Nat} (k : Nat) (h : l.Pairwise (· < ·)) : (l.tak
   h.sublist (List.take_sublist k l)
 
 end KDVerif.Masks.Ijepa
+
+namespace KDVerif.Masks.Ijepa
+
+/-! ### positions in the collated layout -/
+
+theorem flatMap_range_length {α : Type} (f : Nat → List α) (B : Nat) : ∀ n : Nat, (∀ j < n, (f j).length = B) →
+    ((List.range n).flatMap f).length = n * B
+  | 0, _ => by simp
+  | n + 1, h => by
+    rw [List.range_succ, List.flatMap_append, List.length_append,
+      flatMap_range_length f B n (fun j hj => h j (by omega))]
+    simp [h n (by omega), Nat.add_mul]
+
+theorem flatMap_range_getElem? {α : Type} (f : Nat → List α) (B : Nat) : ∀ n : Nat, (∀ j < n, (f j).length = B) →
+    ∀ j b : Nat, j < n → b < B → ((List.range n).flatMap f)[j * B + b]? = (f j)[b]?
+  | 0, _, j, b, hj, _ => by omega
+  | n + 1, h, j, b, hj, hb => by
+    have hlen := flatMap_range_length f B n (fun j hj => h j (by omega))
+    rw [List.range_succ, List.flatMap_append]
+    by_cases hjn : j < n
+    · have hlt : j * B + b < ((List.range n).flatMap f).length := by
+        rw [hlen]
+        have : (j + 1) * B ≤ n * B := Nat.mul_le_mul_right B (by omega)
+        rw [Nat.add_mul] at this
+        omega
+      rw [List.getElem?_append_left hlt]
+      exact flatMap_range_getElem? f B n (fun j hj => h j (by omega)) j b hjn hb
+    · have hj' : j = n := by omega
+      subst hj'
+      have hge : ((List.range j).flatMap f).length ≤ j * B + b := by rw [hlen]; omega
+      rw [List.getElem?_append_right hge, hlen]
+      simp
+
+theorem filterMap_eq_map_of_some {α β : Type} (g : α → Option β) (g' : α → β) : ∀ l : List α,
+    (∀ x ∈ l, g x = some (g' x)) → l.filterMap g = l.map g'
+  | [], _ => rfl
+  | x :: l, h => by
+    rw [List.filterMap_cons, h x (by simp)]
+    simp [filterMap_eq_map_of_some g g' l (fun y hy => h y (by simp [hy]))]
+
+/-- row `j * B + b` of the collated tensor is mask `j` of sample `b`, truncated to the common length -/
+theorem layout_getElem? (k n : Nat) (ps : List (List (List Nat))) (hn : ∀ ms ∈ ps, ms.length = n) (j b : Nat)
+    (hj : j < n) (hb : b < ps.length) :
+    (layout k n ps)[j * ps.length + b]? = some (((ps[b]).getD j []).take k) := by
+  unfold layout
+  have hblock : ∀ j' < n, ps.filterMap (fun ms => (ms[j']?).map (fun m => m.take k)) =
+      ps.map (fun ms => (ms.getD j' []).take k) := by
+    intro j' hj'
+    apply filterMap_eq_map_of_some
+    intro ms hms
+    have : j' < ms.length := by rw [hn ms hms]; exact hj'
+    simp [List.getElem?_eq_getElem this, List.getD_eq_getElem?_getD]
+  have hlen : ∀ j' < n, (ps.filterMap (fun ms => (ms[j']?).map (fun m => m.take k))).length = ps.length := by
+    intro j' hj'; rw [hblock j' hj']; simp
+  rw [flatMap_range_getElem? _ ps.length n hlen j b hj hb, hblock j hj]
+  simp [List.getElem?_map, List.getElem?_eq_getElem hb]
+
+end KDVerif.Masks.Ijepa
